@@ -76,8 +76,7 @@ class Context:
 
     # ---- main ---------------------------------------------------------------------------------
     def run_all(self):
-        tables = ['contracts/kani/contracts.toml']
-        self.info = overlay.build(self.ov, tables=tables)
+        self.info = overlay.build(self.ov)
         if self.enabled('K'):
             self.run_kani()
         if self.enabled('V'):
